@@ -7,7 +7,8 @@ Open Scope N_scope.
 Definition crc_ok (crc : bytes -> N) : Prop := forall b, crc b < 4294967296.
 
 (* Any history of one data file - single writes, multi-record flushes issued as one Write
-   call, close-and-reopen - of records of ANY non-zero length, hence starting at every
+   call, close-and-reopen, Write calls the back-end refuses (FRefused: the staged records are
+   dropped with the failed call and are not part of what was written) - of records of ANY non-zero length, hence starting at every
    block offset and spanning any number of blocks:
    - the logical size equals the physical size,
    - a sequential scan returns exactly the records written, in order, each with the very
@@ -81,6 +82,6 @@ Print Assumptions C11_decode_chunk_total.
 (* Non-vacuity: a concrete two-record history, the first record ending 3 bytes before a
    block boundary (so the second one starts after padding), meets the hypotheses. *)
 Example C11_nonvacuous :
-  Forall fop_ok [FWrite (zeros 32758); FStage [1; 2; 3]; FFlush; FReopen; FWrite [9]] /\
+  Forall fop_ok [FWrite (zeros 32758); FStage [1; 2; 3]; FFlush; FReopen; FWrite [9]; FStage [4]; FRefused; FStage [5]; FFlush] /\
   (32758 : N) < blockSize.
 Proof. split; [repeat constructor|reflexivity]. Qed.
